@@ -228,8 +228,9 @@ class MVL(MoveInstruction):
         assert isinstance(src, Pointer), f"Expected Pointer, got {type(src)}"
         # 0xCB and 0xCF variants use IMem8, IMem8
         dst_reg = TempReg(TempMvlDst)
-        dst_mode = get_addressing_mode(self._pre, 1)
-        src_mode = get_addressing_mode(self._pre, 2)
+        # Same first/second PRE selection as render(): a lone internal-memory
+        # operand in the source position still uses the first mode.
+        dst_mode, src_mode = self._addressing_modes()
 
         dst_reg.lift_assign(
             il, dst.lift_current_addr(il, pre=dst_mode, side_effects=False)
